@@ -14,10 +14,56 @@ from contracts.common import make_chart, symbolic_event
 CORE = 'hsm.HsmEventProcessor.'
 
 
-def world_for(src, tier, weak=False):
+def world_for(src, tier, weak=False, spied=False):
     w = base_world(src)
-    H.install(w, weak=weak)
+    H.install(w, weak=weak, spied=spied)
     return w
+
+
+def spied_chart(it, host):
+    """Inv_idle for a chart whose states all carry @spy_on, hosted on an instrumented processor."""
+    c = it.c
+    self, cur = H.chart_pre(it, host)
+    c.hset(self, 'instrumented', c.fresh('instrumented', z3.BoolSort()))
+    c.hset(self, 'state_name', name_of(cur))
+    c.hset(self, 'state_fn', c.fresh('state_fn0', Ref))
+    rtc = c.read(self, 'rtc')
+    for f in ('spy', 'tuples'):
+        d = c.read(rtc, f)
+        c.assume(B.seq_len(it, d) < c.hget(d, '$maxlen') - 100)
+    return self, cur
+
+
+def t_query_spied(which, host='InstrumentedHsmEventProcessor'):
+    """is_in / child_state on a chart with spy-decorated states: the answer and -- the frame half of C22 -- the
+    names the chart reports about itself are those of the current state afterwards."""
+    def run(it):
+        c, g = it.c, it.c.ghost
+        self, cur = spied_chart(it, host)
+        H.mon_init(c, cur, NONE, H.SEARCH)
+        c.pyghost['cur0'] = cur
+        X = c.fresh_ref('X', 'state', distinct=False)
+        c.assume(X.e != NONE)
+        out = run_body(it, method(it, self, which), [X])
+        if which == 'is_in':
+            c.prove('is_in[spied]:post/returns-normally', out.raised is None, tags=('C22',))
+        if out.raised is None or out.raised == 'AssertionError':
+            c.prove('%s[spied]:post/state_name-still-names-the-current-state' % which,
+                    c.hget(self, 'state_name') == name_of(cur), tags=('C22', 'C23'))
+            c.prove('%s[spied]:post/state_fn-still-is-the-current-state' % which,
+                    z3.Or(c.hget(self, 'state_fn') == cur, c.hget(self, 'state_fn') == I_raw_of(cur)), tags=('C22', 'C23'))
+            c.prove('%s[spied]:post/chart-unchanged' % which,
+                    z3.And(H.state_fun(it, self) == cur, H.temp_fun(it, self) == cur), tags=('C22', 'idle'))
+        if which == 'is_in' and out.raised is None:
+            c.prove('is_in[spied]:post/true-iff-current-or-enclosing', c.to_bool(out.value) == encloses(X.e, cur),
+                    tags=('C22',))
+        c.cover('%s[spied]:cover' % which)
+    return Target('%s@%s[spied]' % (which, host), run, [CORE + which, 'hsm.spy_on._spy_on'])
+
+
+def I_raw_of(x):
+    from .instr_targets import raw_of
+    return raw_of(x)
 
 
 def t_tree_lemmas():
@@ -155,7 +201,9 @@ def t_is_in(host='HsmEventProcessor'):
         X = c.fresh_ref('X', 'state', distinct=False)
         c.assume(X.e != NONE)
         snap = _mon_snapshot(c)
-        out = framed(it, 'is_in:frame', [(H.temp_of(it, self), 'fun')],
+        c.harr('state_name'); c.harr('state_fn')
+        c.pyghost['heap0'] = dict(c.heap)
+        out = framed(it, 'is_in:frame', [(H.temp_of(it, self), 'fun'), (self, 'state_name'), (self, 'state_fn')],
                      lambda: run_body(it, method(it, self, 'is_in'), [X]))
         c.prove('is_in:post/returns-normally', out.raised is None, tags=('C22',))
         if out.raised is not None:
@@ -165,6 +213,10 @@ def t_is_in(host='HsmEventProcessor'):
         c.prove('is_in:post/chart-unchanged', z3.And(H.state_fun(it, self) == cur, H.temp_fun(it, self) == cur),
                 tags=('C22', 'idle'))
         c.prove('is_in:post/no-action-no-offer', _mon_unchanged(c, snap), tags=('C22',))
+        for f, v in (('state_name', name_of(cur)), ('state_fn', cur)):
+            c.prove('is_in:post/%s-names-the-current-state-if-touched' % f,
+                    z3.Or(c.hget(self, f) == v, c.hget(self, f) == z3.Select(c.pyghost['heap0'][f], self.e)
+                          if f in c.pyghost.get('heap0', {}) else z3.BoolVal(False)), tags=('C22', 'C23'))
         c.cover('is_in:cover')
     return Target('is_in@%s' % host, run, [CORE + 'is_in'])
 
@@ -178,7 +230,7 @@ def t_child_state(host='HsmEventProcessor'):
         P = c.fresh_ref('P', 'state', distinct=False)
         c.assume(P.e != NONE)
         snap = _mon_snapshot(c)
-        out = framed(it, 'child_state:frame', [(H.temp_of(it, self), 'fun')],
+        out = framed(it, 'child_state:frame', [(H.temp_of(it, self), 'fun'), (self, 'state_name'), (self, 'state_fn')],
                      lambda: run_body(it, method(it, self, 'child_state'), [P]))
         if out.raised is None:
             c.prove('child_state:post/returns-only-when-enclosing', encloses(P.e, cur), tags=('C22',))
